@@ -102,6 +102,8 @@ def main():
                 args = [enc.c(z), enc.z(nn)]
             elif c < 0.93:
                 op = "cdiv"
+                if not all(abs(t[2]) < 400 for t in z + w):
+                    continue                   # the quotient bound is evaluated with exact sums: keep exponent gaps materialisable
                 lvl = r.choice(["libmp", "oper", "recip"])
                 if w[0] == gen.FZERO and w[1] == gen.FZERO:
                     continue
